@@ -81,7 +81,7 @@ type Env struct {
 	Ref     map[string]*ref.Matcher // per method, strict reading
 	RefLax  map[string]*ref.Matcher // per method, lax prefixed catch-all reading
 	RRoutes []*ref.RRoute
-	Methods []string // methods that have routes, in first-registration order
+	Methods []string       // methods that have routes, in first-registration order
 	Single  []*ref.Matcher // one matcher per route (route alone), for contestedness counting
 	Cap     *Capture
 	W       *fx.RW
@@ -504,6 +504,45 @@ func (e *Env) Contenders(method, host, path string) int {
 			continue
 		}
 		if m.Lookup(host, path).Route != nil {
+			n++
+		}
+	}
+	return n
+}
+
+// GrayPrefixedCatchAll reports whether, for route index id (1-based) with the reported values, a
+// catch-all that follows static text inside its segment captured a value starting with '/'. The
+// documentation gives one example of this in suffix position and is silent otherwise: the oracle
+// abstains on such matches.
+func (e *Env) GrayPrefixedCatchAll(id int, kv []ref.KV) bool {
+	if id <= 0 || id > len(e.RRoutes) {
+		return false
+	}
+	pat := e.RRoutes[id-1].Pat
+	i := len(pat.HostToks) - countStatic(pat.HostToks)
+	prevStatic := false
+	for _, t := range pat.PathToks {
+		switch t.Kind {
+		case ref.Static:
+			prevStatic = t.Lit != '/'
+		case ref.Param:
+			i++
+			prevStatic = true
+		case ref.CatchAll:
+			if prevStatic && i < len(kv) && strings.HasPrefix(kv[i].V, "/") {
+				return true
+			}
+			i++
+			prevStatic = true
+		}
+	}
+	return false
+}
+
+func countStatic(toks []ref.Token) int {
+	n := 0
+	for _, t := range toks {
+		if t.Kind == ref.Static {
 			n++
 		}
 	}
